@@ -47,7 +47,7 @@ Step ==
        [] e.e = "send" /\ e.m.t = "Illegal" ->
             /\ Bad("binding-ended", e.w, 0) /\ Keep
        [] e.e = "fin" ->
-            /\ Check(e.done, "job-never-confirmed", e.produced, Len(dconf))
+            /\ Check(e.done \/ e.free, "job-never-confirmed", e.produced, Len(dconf))
             /\ Check(~e.done \/ \A k \in 1..e.produced : k \in hand, "job-never-handed-to-a-worker", e.produced, Cardinality(hand))
             /\ Check(~e.done \/ Len(dconf) = e.produced, "confirmation-count", e.produced, Len(dconf))
             /\ Keep
